@@ -41,6 +41,9 @@ def run(ctx):
         if i % 6 == 5:
             # a malformed record (stray quote) followed by good ones: fields must not bleed
             bad = 'type=AVC msg=audit(1.1:1): apparmor="DENIED" operation="open" profile="foo" name="/a"b c" pid=1 comm="x" extra="q'
+            if i % 12 == 11:
+                # a record cut in the middle of a value: an odd number of quotes
+                bad = 'type=AVC msg=audit(1.1:1): apparmor="DENIED" operation="open" profile="foo" name="/a"b c" pid=1 comm="x" extra="q" more=cut'
             text = bad + '\n' + text
         cases.append((text, evs))
     ops = [esc(t) for t, _ in cases]
@@ -113,7 +116,7 @@ def run(ctx):
     ctx.cov['search']['field_spec'] = {'logs': len(cases), 'judged': nj, 'failing': nfail, 'known_class_hits': nk}
     ctx.sample({'log': cases[0][0][:600], 'real_output': go[0][:600]})
     ctx.cov['rule'] = ('records generated from structured events with names/comm/profile holding spaces, =, #, commas, UTF-8 (hex-encoded '
-                       'as the kernel does, or quoted), any class; a malformed record placed before well-formed ones in 1/6 of the logs; '
+                       'as the kernel does, or quoted), any class; a malformed record (stray quote; every other time cut inside a value, i.e. an odd number of quotes) placed before well-formed ones in 1/6 of the logs; '
                        'expected maps computed from the events, with the documented generalisation (the real rewrite list applied to the '
                        'bare value) for profile/name/target')
     if broken and not any(c for _, c, _ in ctx.violations):
